@@ -821,7 +821,8 @@ def run(ctx):
         "wrong kinds) as a one-assignment document; (b) random documents with main block, nested block, section, "
         "top-level occurrences of field names, extra/missing/duplicate keys; (c) PRIORITY (never subsampled): every distinct "
         "NUMBER field definition x %d texts = underflowing literals (1e-400, -1e-400, 2e-324, 4.9e-325, 0.1e-323, ...: must stay "
-        "text since 80b6126), zero in every notation (must be coerced), the same with non-ASCII digits, integer texts that are "
+        "text since 80b6126), zero in every notation (must be coerced), the same with non-ASCII decimal digits (fullwidth, Arabic-Indic, "
+        "Devanagari, mathematical bold; must stay text / be coerced since 0b7941a; in model scope via the digit oracle), integer texts that are "
         "not doubles (2^53+1, 20+ digits: the new value must be the exact int); (d) REPEAT documents: one schema field at 2-4 "
         "places (nested, repeated item blocks, duplicate key, sections, mixed) with the identical repairable text -- #REPAIR "
         "entries must be occurrences x entries of the one-assignment document; corpus/C11 (witnesses of fixed findings, "
@@ -839,11 +840,13 @@ def run(ctx):
         shutil.rmtree(root, ignore_errors=True)
     ctx.assumptions += [
         "int(text)/float(text)/repr(float)/math.isfinite(float)/(float == 0) of CPython are an oracle table handed to the model per case; "
-        "the mantissa test of the underflow guard is computed by the model (not an oracle) and compared on every oracle text",
+        "the mantissa test of the underflow guard is computed by the model and compared on every oracle text: ASCII digits in Gallina, "
+        "the decimal value of NON-ASCII characters (str.isdecimal / int(ch)) is a per-case digit oracle table (G) computed with the real Python",
         "C11_repair_lossless_text / C11_repair_tbl_lossless_text assume a self-consistent oracle (zero repr text -> flagged == 0) and that int() "
-        "does not read a text with an ASCII digit 1..9 as 0: both are evaluated by the extracted tbl_float_consistent / tbl_int_zero_ok on "
+        "does not read a text with a decimal digit of non-zero value as 0: both are evaluated by the extracted tbl_float_consistent / tbl_int_zero_ok on "
         "every oracle text of the run (driver command tblok)",
-        "str.lower/str.strip are modelled for ASCII; cases with non-ASCII text are compared on the implementation only (counted as out_of_model)",
+        "str.lower/str.strip are modelled for ASCII; non-ASCII decimal digits are in the model's scope (no case, not whitespace); cases with "
+        "any other non-ASCII character are compared on the implementation only (counted as out_of_model)",
         "the schema loader / constraint parser are not modelled: the model receives the SchemaDefinition the real loader produced",
         "write path: whether validation found errors (the gate of the lenient repair) is taken from the real Validator",
     ]
